@@ -140,8 +140,11 @@ fn c17_q_lookup_paths_extra_debuginfo() {
     match &r {
         Some(l) => {
             assert!(is_safe(leaf));
-            assert!(is_cat(l.cache_rel.as_bytes(), leaf, b"I", leaf));
-            assert!(is_cat(l.server_rel.as_bytes(), leaf, b"I", leaf));
+            // the id text comes from the same call the lookup makes: the stub's "I" in the solver run, the real text in a native replay
+            let id = DebugId::nil().breakpad().to_string();
+            assert!(is_cat(l.cache_rel.as_bytes(), leaf, id.as_bytes(), leaf));
+            assert!(is_cat(l.server_rel.as_bytes(), leaf, id.as_bytes(), leaf));
+            std::mem::forget(id);
         }
         None => assert!(!is_safe(leaf)),
     }
@@ -169,7 +172,9 @@ fn c17_q_lookup_paths_binary() {
     match &r {
         Some(l) => {
             assert!(is_safe(dleaf) && is_safe(cleaf));
-            assert!(is_cat(l.cache_rel.as_bytes(), dleaf, b"I", cleaf));
+            let id = DebugId::nil().breakpad().to_string();
+            assert!(is_cat(l.cache_rel.as_bytes(), dleaf, id.as_bytes(), cleaf));
+            std::mem::forget(id);
             assert!(is_cat(l.server_rel.as_bytes(), cleaf, CodeId::nil().as_ref().as_bytes(), cleaf));
         }
         None => assert!(!is_safe(dleaf) || !is_safe(cleaf)),
@@ -202,8 +207,12 @@ fn c17_q_lookup_paths_breakpad_sym() {
     match &r {
         Some(l) => {
             assert!(is_safe(leaf));
-            assert!(is_cat(l.cache_rel.as_bytes(), leaf, b"I", b"f.sym"));
-            assert!(is_cat(l.server_rel.as_bytes(), leaf, b"I", b"f.sym"));
+            let id = DebugId::nil().breakpad().to_string();
+            let file = hook::replace_or_add_extension(unsafe { std::str::from_utf8_unchecked(leaf) }, "pdb", "sym");
+            assert!(is_cat(l.cache_rel.as_bytes(), leaf, id.as_bytes(), file.as_bytes()));
+            assert!(is_cat(l.server_rel.as_bytes(), leaf, id.as_bytes(), file.as_bytes()));
+            std::mem::forget(id);
+            std::mem::forget(file);
         }
         None => assert!(!is_safe(leaf)),
     }
